@@ -620,6 +620,23 @@ func runC18(r *Rng, n int, tier string) {
 			}
 		}
 	}
+	// ---- gen: result lists with repeated names next to names that already look de-duplicated
+	dupSchema := "CREATE TABLE ledger (id bigint NOT NULL, total int NOT NULL, total_2 int NOT NULL, total_3 int, id_2 bigint);\n"
+	for di, q := range []string{
+		"SELECT total, total, total_2 FROM ledger",
+		"SELECT total, total_2, total FROM ledger",
+		"SELECT total_2, total, total, total FROM ledger",
+		"SELECT id, id, id_2, total, total, total_2, total_3 FROM ledger",
+		"SELECT a.id, b.id, a.id_2, b.id_2, a.total, b.total, a.total_2 FROM ledger a JOIN ledger b ON a.id = b.id_2",
+		"SELECT total, total AS total_2, total_2 FROM ledger",
+		"SELECT count(*), count(*), count(*) AS count_2 FROM ledger",
+		"INSERT INTO ledger (id, total, total_2) VALUES ($1, $2, $3) RETURNING total, total, total_2",
+	} {
+		for _, extra := range []string{"", `"emit_json_tags":true`, `"emit_json_tags":true,"emit_db_tags":true,"json_tags_case_style":"camel"`} {
+			files := map[string]string{"schema.sql": dupSchema, "query.sql": "-- name: D :many\n" + q + ";\n", "sqlc.json": confV1("postgresql", extra)}
+			emit(c18GenCase(next("dup"), files, []string{fmt.Sprintf("dupcols:%d", di)}, nil, nil))
+		}
+	}
 	// ---- gen: byte strings and mutated projects
 	goodConf := `{"version":"1","packages":[{"path":"db","engine":"%s","schema":"schema.sql","queries":"query.sql"}]}`
 	for i := 0; i < n; i++ {
